@@ -609,6 +609,57 @@ func cmdCheck(args []string) int {
 			fmt.Printf("  bounded stand-in %s failed on the real code: %v\n", bs.Test, firstLine(fmt.Sprint(rep["output"])))
 		}
 	}
+	// thorough tier: besides requiring two solvers per obligation, run every replay witness
+	// registered for the property against the real code (DESIGN §12.4). The witnesses are
+	// concrete executions, not proof: they are reported separately and never counted among the
+	// obligations. A witness attached to a recorded finding is expected to fail and is skipped.
+	var witnessReports []map[string]any
+	if *tier == "thorough" && os.Getenv("VERIF_NO_WITNESS") == "" {
+		findingTests := map[string]bool{}
+		for _, k := range known {
+			if k.Kind == "finding" && k.Property == *prop && k.Replay != "" {
+				findingTests[filepath.Base(k.Replay)] = true
+			}
+		}
+		ran := map[string]bool{}
+		for _, re := range loadReplayMap(verifDir) {
+			re := re
+			if re.Property != *prop || ran[re.Test] {
+				continue
+			}
+			ran[re.Test] = true
+			wr := map[string]any{"test": re.Test, "label": "WITNESS (concrete executions on the real code; not counted in obligations/discharged)"}
+			if findingTests[re.Test] {
+				wr["result"] = "skipped: witness of a recorded finding"
+				witnessReports = append(witnessReports, wr)
+				continue
+			}
+			t0 := time.Now()
+			failed, out := runReplayTest(&re, map[string]string{})
+			if failed {
+				// timing-sensitive witnesses must fail twice before they count
+				failed, out = runReplayTest(&re, map[string]string{})
+			}
+			wr["wall_s"] = round2(time.Since(t0).Seconds())
+			wr["result"] = map[bool]string{true: "FAILED", false: "passed"}[failed]
+			if !failed && !strings.Contains(out, "ok  ") {
+				wr["result"] = "did not run"
+				wr["output"] = out
+			}
+			witnessReports = append(witnessReports, wr)
+			if failed {
+				violations++
+				exit = 1
+				os.MkdirAll(replayDir, 0o755)
+				rp := filepath.Join(replayDir, "witness__"+fileSafe(re.Test)+".json")
+				rb, _ := json.MarshalIndent(map[string]any{"property": *prop, "obligation": "witness:" + re.Test, "kind": "replay witness (thorough tier)",
+					"replayed_on_code": true, "failing_input": "replay test " + re.Test + ":\n" + out}, "", " ")
+				os.WriteFile(rp, rb, 0o644)
+				fmt.Printf("VIOLATION property=%s replay=%s\n", *prop, rp)
+				fmt.Printf("  replay witness %s fails on the real code: %s\n", re.Test, firstLine(failLine(out)))
+			}
+		}
+	}
 	wall := time.Since(start).Seconds()
 	fmt.Printf("property %s tier %s: %d obligations, %d discharged, %d known-finding, %d violated (%.1fs wall, %.1fs solver)\n",
 		*prop, *tier, len(allObls), discharged, knownHits, violations, wall, solverSecs)
@@ -672,6 +723,7 @@ func cmdCheck(args []string) int {
 				"residual_not_covered":                     conf.Residual,
 				"samples":                                  samples,
 				"bounded_stand_ins":                        boundedReports,
+				"witness_replays":                          witnessReports,
 				"callers_without_contract_whose_preconditions_are_unchecked": uncheckedCallers,
 				"api_boundary_invariant_assumed_at_entry_callers_unchecked":  boundaryCallers,
 				"explanation":                              conf.Explanation,
